@@ -17,6 +17,16 @@ CLAIMED = {
              'semantics as modelled, correspondence sampling (model = code is checked on generated inputs, not proved). No axioms.',
         technique='Coq proof by list induction + vm_compute table facts over translator-generated tables; differential correspondence',
         design='6 (C10)'),
+    'C11': dict(
+        text='Coq theorems (Props/C11.v): for every list of septets, of any length, the Python pack loop (modelled index by index) equals '
+             'the 3GPP TS 23.038 bit-stream packing (Spec/Septets.v); its length is ceil(7n/8); unpacking returns the septets, plus one zero '
+             'septet exactly for 8n-1 septets; at text level encode = packing of the unpacked encoding and decode returns the text, with a '
+             'trailing commercial-at only in the 8n-1 case. Proof by induction in periods of 8 septets/7 octets, per-alignment arithmetic '
+             'discharged by exhaustive kernel sweeps over septet pairs and lia. Model tied to codec.py by differential runs.',
+        note='Trusted: Coq kernel + vm_compute, translator (tables), Spec/Septets.v transcription, CPython int/bytearray semantics as modelled, '
+             'correspondence sampling. No axioms.',
+        technique='Coq proof by chunk induction + exhaustive finite sweeps (vm_compute) + lia; differential correspondence',
+        design='6 (C11)'),
 }
 
 PENDING_REASON = 'check not built yet in this round (planned, see DESIGN.md section 6); not claimed until its proof and correspondence run exist'
